@@ -44,14 +44,23 @@ def _cases(draw):
     outside = _OUTSIDE if dtype == "float" else (st.sampled_from([2, 7, 255]) if dtype == "uint8" else
                                                  st.sampled_from([-1, 2]) if dtype == "int" else
                                                  st.sampled_from([-0.5, 1.5, 2.0, -1.0]))
+    bad_at = None
     if bad == "genuine" and n:
-        g[draw(st.integers(0, n - 1))] = draw(outside)
+        bad_at = draw(st.integers(0, n - 1))
+        g[bad_at] = draw(outside)
     if bad == "fraud" and m:
-        f[draw(st.integers(0, m - 1))] = draw(outside)
+        bad_at = n + draw(st.integers(0, m - 1))
+        f[bad_at - n] = draw(outside)
     # a missing (NaN) score somewhere must not hide an out-of-range one
     nan_at = None
-    if dtype == "float" and draw(st.integers(0, 5)) == 0 and n + m > 0:
+    if dtype == "float" and draw(st.integers(0, 3)) == 0 and n + m > 0:
         nan_at = draw(st.integers(0, n + m - 1))
+        if bad_at is not None and draw(st.booleans()):
+            # ... in particular not one in the same class
+            lo_, hi_ = (0, n) if bad_at < n else (n, n + m)
+            others = [i for i in range(lo_, hi_) if i != bad_at]
+            if others:
+                nan_at = others[draw(st.integers(0, len(others) - 1))]
     thr = draw(gen.shaped_thresholds([float(x) for x in g + f], shapes=[(), (3,), (2, 2), (0,)], mag=2.0))
     targets = draw(st.lists(gen.target_values([max(n, 1), max(m, 1), max(n + m, 1)]), min_size=1, max_size=4))
     return dict(g=g, f=f, dtype=dtype, nan_at=nan_at, eg=draw(st.sampled_from([0, 0, 3, 40])),
